@@ -204,7 +204,7 @@ impl<Ev> Time<Ev> {
             final(w).issued == old(w).issued,
 //@rule X17.async-block 1 s/async move \{/{/
 //@rule X17.await * s/\s*\.await\b//
-//@rule X6.world 1 s/\b(\w+)\.insert\(id\)/\1.insert(Tracked(w), id)/
+//@rule X6.world 1 s/\.insert\(id\)/.insert(Tracked(w), id)/
 //@rule X6.world 1 s/\.notify_shell\(/.notify_shell(Tracked(w), /
 //@end
 }
